@@ -105,7 +105,32 @@ func setupEVMWorld(w *e.World) error {
 			return fmt.Errorf("setup delegate failed: %v %s", err, res.Log)
 		}
 	}
-	// the FICs themselves hold stake too (delegated by a direct precompile call would need origin == delegator)
+	// fic_staked: the FICs themselves hold stake (and so earn rewards): the
+	// deployer grants each FIC a delegate allowance and has it delegate its own funds
+	if w.Cfg.Flags["fic_staked"] > 0 {
+		for i := range m.fics {
+			ap := &PCall{PC: "staking", M: "approve", To: fmt.Sprintf("fic:%d", i), Amt: "9000000000000000000", Methods: []string{stakingMsgURLs[0]}}
+			data, _ := m.packPCall(w, ap)
+			to := addrStaking
+			if res, err := w.DoEth(dep, e.EthArgs{Type: 2, To: &to, Gas: 2_000_000, Data: data}); err != nil || res.Code != 0 {
+				return fmt.Errorf("setup approve for FIC %d failed: %v %s", i, err, res.Log)
+			}
+			raw, _ := json.Marshal(&PCall{PC: "staking", M: "delegate", Who: fmt.Sprintf("fic:%d", i), Val: i % len(w.Vals), Amt: "5000000000000000000"})
+			pr := &Prog{FIC: i, Gas: 3_000_000, Nodes: []*evmprog.Node{{Kind: evmprog.OpCall, Target: "pre:staking", Call: raw}}}
+			code, err := evmprog.Encode(pr.Nodes, ficResolver{w, m})
+			if err != nil {
+				return fmt.Errorf("setup program for FIC %d: %v", i, err)
+			}
+			fic := m.fics[i]
+			res, err := w.DoEth(dep, e.EthArgs{Type: 2, To: &fic, Gas: pr.Gas, Data: code})
+			if err != nil || res.Code != 0 {
+				return fmt.Errorf("setup delegate of FIC %d failed: %v %s", i, err, res.Log)
+			}
+			if r, err := w.EthResponse(res); err != nil || r.Failed() {
+				return fmt.Errorf("setup delegate of FIC %d: vm error", i)
+			}
+		}
+	}
 	st := e.BlkStep(5000, nil)
 	w.MustBlk(&st)
 	w.MustBlk(&st)
